@@ -579,11 +579,64 @@ def mapped_gated_rename(ctx, i):
     ctx.case({"mapped-rename": canon(hist), "first": items[0] % 2}, True)
 
 
+def constructor_collisions(ctx):
+    """A rename handed to a node CONSTRUCTOR (rename_inputs=) that maps a parameter onto the name of another parameter:
+    with_inputs() refuses exactly this map (two parameters cannot share one external name), so must the constructor;
+    if it accepts the map, both parameters are addressed by that name and both must receive the value supplied under
+    it. Function nodes, both gate kinds and interrupts."""
+    import asyncio
+
+    from hypergraph import AsyncRunner, FunctionNode, Graph, IfElseNode, InterruptNode, RenameError, RouteNode
+
+    got = {}
+
+    def body(a, b=5):
+        got["args"] = (a, b)
+        return "t"
+
+    def body_bool(a, b=5):
+        got["args"] = (a, b)
+        return True
+
+    makers = {
+        "function": lambda: FunctionNode(body, name="f", output_name="r", rename_inputs={"a": "b"}),
+        "route": lambda: RouteNode(body, targets=["t"], name="f", rename_inputs={"a": "b"}),
+        "ifelse": lambda: IfElseNode(body_bool, when_true="t", when_false="u", name="f", rename_inputs={"a": "b"}),
+        "interrupt": lambda: InterruptNode(body, name="f", output_name="r", rename_inputs={"a": "b"}),
+    }
+    for kind, mk in makers.items():
+        ctx.obs["constructor_collision_probes"] += 1
+        case = {"program": f"{kind} node over f(a, b=5) constructed with rename_inputs={{'a': 'b'}}"}
+        try:
+            nd = mk()
+        except RenameError:
+            ctx.obs["rejections_ok"] += 1
+            continue
+        except Exception as e:  # noqa: BLE001
+            ctx.violation("C06:duplicate-wrong-error", f"{kind}: colliding constructor rename raised {e!r}", case)
+            continue
+        # accepted: then it has to be honoured
+        extra = []
+        if kind in ("route", "ifelse"):
+            extra = [FunctionNode(lambda: 1, name="t", output_name="to")] + ([FunctionNode(lambda: 2, name="u", output_name="uo")] if kind == "ifelse" else [])
+        try:
+            got.clear()
+            asyncio.run(AsyncRunner().run(Graph([nd, *extra], name="cc"), {"b": 1}))
+        except Exception as e:  # noqa: BLE001
+            ctx.violation("C06:duplicate-accepted", f"{kind}: constructor accepted rename_inputs={{'a': 'b'}} (inputs {nd.inputs}) and the run then raised {e!r}", case)
+            continue
+        if got.get("args") != (1, 1):
+            ctx.violation("C06:duplicate-accepted", f"{kind}: constructor accepted rename_inputs={{'a': 'b'}} (inputs {nd.inputs}); the value supplied under 'b' reached the parameters as {got.get('args')}: the parameter b, whose external name is 'b', got its default instead", case)
+    ctx.case({"directed": "constructor-collisions"}, True)
+
+
 def run(ctx):
     n = 130 if ctx.tier == "quick" else 5500
     if ctx.replay:
         ctx.inconc("C06 replays are re-generated from the seed; re-run the tier with the recorded seed")
         return
+    if ctx.shard[0] == 0:
+        constructor_collisions(ctx)
     for i in range(n):
         for kind in ("fn", "ifelse", "route", "int", "graph", "graph"):
             one_history(ctx, kind, i)
